@@ -15,6 +15,11 @@ import NodisVerif.Proofs.SkiplistZSet
 import NodisVerif.Proofs.SkiplistHeader
 import NodisVerif.Proofs.SkiplistZHeader
 import NodisVerif.Proofs.SkiplistZRange
+import NodisVerif.Proofs.FloatDecTrip
+import NodisVerif.Proofs.FloatDecInt
+import NodisVerif.Proofs.FloatDecLen
+import NodisVerif.Proofs.FloatDecMono2
+import NodisVerif.Proofs.FloatDecNear
 /-
   C04 — sorted sets stay ordered by (score, member); rank, range and score agree.
 
@@ -847,5 +852,166 @@ example : (∀ op ∈ [Skiplist.PZOp.add [97] 0x3FF0000000000000 2, .add [98] 0x
   rcases hop with rfl | rfl | rfl | rfl | rfl <;> simp [Skiplist.PZOpOk, Skiplist.maxLevel] <;> decide
 
 end skiplist
+/-! ## Score text: `strconv.ParseFloat(s, 64)` and `strconv.FormatFloat(x, 'f', -1, 64)` in the model (work package C)
+
+  Model/FloatDec.lean replaces the integer-only float text of earlier rounds: `parseDec` / `parseFloat` (decimal syntax
+  of `readFloat`, exact rounding `roundRat`, range errors, underscores, inf / nan spellings) and `formatShortest`
+  (shortest round-tripping digits, %f rendering). Tied to strconv on every run of this check by the float text table
+  (bin/checks/floattab.py: `fmtfloat` / `parsefloat` lines through the harness and the driver, compared verbatim). -/
+section floattext
+open NodisVerif.F64 NodisVerif.FloatDec
+
+/-- ROUND TRIP (partial): for every double that is not NaN, if the text is not the 17-digit fallback of the digit
+    search (x is ±Inf or ±0, or some n ≤ 17 digits round-trip — true for every double the table has ever tried),
+    then ParseFloat(FormatFloat(x, 'f', -1, 64)) = x bit for bit.
+    MISSING for the full statement: that the search always succeeds within 17 digits (17-digit sufficiency of
+    binary64), i.e. `∀ x finite non-zero, (searchShortest x).isSome`. -/
+theorem formatShortest_roundtrip_partial (x : F64) (hnan : isNaN x = false)
+    (hs : isInf x = true ∨ isZero x = true ∨ (searchShortest x).isSome = true) :
+    parseFloat (formatShortest x) = some (some x) :=
+  Proofs.FloatDecTrip.formatShortest_roundtrip_partial x hnan hs
+
+/-- the hypotheses hold on 0.1, 1, the largest finite double, −1/3 (17 digits), and the smallest subnormal -/
+example : (searchShortest 0x3FB999999999999A).isSome = true ∧ (searchShortest 0x3FF0000000000000).isSome = true ∧
+    (searchShortest 0x7FEFFFFFFFFFFFFF).isSome = true ∧ (searchShortest 0xBFD5555555555555).isSome = true ∧
+    (searchShortest 1).isSome = true := by decide +kernel
+
+/-- the same for the names the sorted-set handlers use: a score written by `fmtScore` reads back as the same score -/
+theorem score_text_roundtrip_partial (x : F64) (t : Bytes) (hnan : isNaN x = false)
+    (hs : isInf x = true ∨ isZero x = true ∨ (searchShortest x).isSome = true)
+    (ht : FloatText.formatFloat x = some t) : FloatText.parseFloat t = some (some x) := by
+  unfold FloatText.formatFloat at ht
+  cases ht
+  exact Proofs.FloatDecTrip.formatShortest_roundtrip_partial x hnan hs
+
+example : FloatText.parseFloat (Bytes.ofString "0.1") = some (some 0x3FB999999999999A) ∧
+    FloatText.formatFloat 0x3FB999999999999A = some (Bytes.ofString "0.1") ∧
+    FloatText.parseFloat (Bytes.ofString "1e400") = some none ∧
+    FloatText.parseFloat (Bytes.ofString "1e-400") = some (some 0) ∧
+    FloatText.parseFloat (Bytes.ofString "-.5") = some (some 0xBFE0000000000000) ∧
+    FloatText.parseFloat (Bytes.ofString "1_000") = some (some 0x408F400000000000) ∧
+    FloatText.parseFloat (Bytes.ofString "0x1p3") = none ∧
+    FloatText.formatFloat 0x444B1AE4D6E2EF50 = some (Bytes.ofString "1000000000000000000000") ∧
+    FloatText.formatFloat 0x3EB0C6F7A0B5ED8D = some (Bytes.ofString "0.000001") := by decide +kernel
+
+/-- INTEGER TEXT: an optional sign and decimal digits (at most 800) whose value is below 2^53 parse to exactly the
+    double of that integer, `roundPack neg n 0` = `F64.ofInt?` — the integer-only model and the decimal model agree -/
+theorem parseDec_integer (sgn : Bytes) (neg : Bool)
+    (hs : (sgn = [] ∧ neg = false) ∨ (sgn = [43] ∧ neg = false) ∨ (sgn = [45] ∧ neg = true))
+    (ds : Bytes) (hne : ds ≠ []) (hall : ds.all isDigit = true) (hlen : ds.length ≤ 800)
+    (hn : digitsToNat ds 0 < 2 ^ 53) :
+    parseDec (sgn ++ ds) = some (some (roundPack neg (digitsToNat ds 0) 0)) :=
+  Proofs.FloatDecInt.parseDec_digits sgn neg hs ds hne hall hlen hn
+
+example : parseDec ([45] ++ [49, 50, 51]) = some (some (roundPack true 123 0)) ∧ F64.ofInt? (-123) = some (roundPack true 123 0) :=
+  ⟨parseDec_integer [45] true (Or.inr (Or.inr ⟨rfl, rfl⟩)) [49, 50, 51] (by decide) (by decide) (by decide) (by decide), by decide⟩
+
+/-- wherever the integer-only model of earlier rounds (`Api.parseFloatTextInt`) produced a value, the decimal model
+    produces the same one — except on "-0", "-00", …, where Go and the decimal model give −0 and the old model gave +0 -/
+theorem parseFloatText_agrees_with_integer_model (b : Bytes) (x : F64) (h : Api.parseFloatTextInt b = some (some x))
+    (hnz : ¬ (b.head? = some 45 ∧ parseInt64 b = some 0)) : Api.parseFloatText b = some (some x) :=
+  Proofs.FloatDecInt.parseFloatText_agrees_int b x h hnz
+
+example : Api.parseFloatTextInt [45, 49, 50] = some (some 0xC028000000000000) ∧
+    ¬ (([45, 49, 50] : Bytes).head? = some 45 ∧ parseInt64 [45, 49, 50] = some 0) := by decide +kernel
+
+/-- EXACT INPUTS: every finite double x = (−1)^s · m · 2^e (m, e = `decode x`; zeros and subnormals included) is the
+    value `roundRat` returns on the exact rational m·2^e — no rounding happens on representable values -/
+theorem roundRat_exact (x : F64) (hfin : expBits x < 2047) :
+    roundRat (sign x) (if (decode x).2 ≥ 0 then (decode x).1 * 2 ^ (decode x).2.toNat else (decode x).1)
+      (if (decode x).2 ≥ 0 then 1 else 2 ^ (-(decode x).2).toNat) = x :=
+  Proofs.FloatDecRound.roundRat_decode x hfin
+
+example : expBits (0x3FB999999999999A : F64) < 2047 ∧ expBits (1 : F64) < 2047 := by decide
+
+/-- … and a natural below 2^53 over 1 gives the double of the integer model -/
+theorem roundRat_exact_nat (neg : Bool) (n : Nat) (hn0 : 0 < n) (hn : n < 2 ^ 53) : roundRat neg n 1 = roundPack neg n 0 :=
+  Proofs.FloatDecRound.roundRat_nat neg n hn0 hn
+
+/-- LENGTH: FormatFloat(x, 'f', -1, 64) never exceeds 1000 bytes (true maximum 327); the old bound 21 held for
+    integer-valued doubles only. Used for the storage codec's size side condition (C20: `Call.WF`). -/
+theorem formatShortest_length (x : F64) : (formatShortest x).length ≤ 1000 :=
+  Proofs.FloatDecLen.formatShortest_length x
+
+/-- MONOTONICITY of the exact rounding (hence of ParseFloat on non-negative decimal text): num1/den1 ≤ num2/den2
+    (cross-multiplied) ⇒ the rounded doubles are in the same order, as numbers (bit patterns of non-negative doubles,
+    +Inf on top). Proof: Proofs/FloatDecMono.lean — the bit pattern of a rounding as a number, monotone at one exponent,
+    invariant under rescaling, constant inside a cell of the fine grid, then both rationals at a common scale. -/
+theorem roundRat_mono (num1 den1 num2 den2 : Nat) (hd1 : 0 < den1) (hd2 : 0 < den2)
+    (h : num1 * den2 ≤ num2 * den1) :
+    (roundRat false num1 den1).toNat ≤ (roundRat false num2 den2).toNat :=
+  Proofs.FloatDecMono.roundRat_mono num1 den1 num2 den2 hd1 hd2 h
+
+/-- … in the order the sorted sets compare scores with (`F64.le`; the results are never NaN) -/
+theorem roundRat_mono_le (num1 den1 num2 den2 : Nat) (hd1 : 0 < den1) (hd2 : 0 < den2) (h : num1 * den2 ≤ num2 * den1) :
+    F64.le (roundRat false num1 den1) (roundRat false num2 den2) = true :=
+  Proofs.FloatDecMono.roundRat_le num1 den1 num2 den2 hd1 hd2 h
+
+/-- … and in the decimal form `parseDec` uses (mantissa × 10^exponent): mant1·10^e1 ≤ mant2·10^e2 -/
+theorem roundDec_mono (m1 m2 : Nat) (e1 e2 : Int)
+    (h : m1 * 10 ^ e1.toNat * 10 ^ (-e2).toNat ≤ m2 * 10 ^ e2.toNat * 10 ^ (-e1).toNat) :
+    (roundDec false m1 e1).toNat ≤ (roundDec false m2 e2).toNat :=
+  Proofs.FloatDecMono.roundDec_mono m1 m2 e1 e2 h
+
+/-- 0.1 ≤ 1/3 ≤ 0.5 as rationals, so as doubles (the hypotheses are plain inequalities between naturals) -/
+example : (roundRat false 1 10).toNat ≤ (roundRat false 1 3).toNat ∧ (roundDec false 3 (-1)).toNat ≤ (roundDec false 5 (-1)).toNat :=
+  ⟨roundRat_mono 1 10 1 3 (by decide) (by decide) (by decide), roundDec_mono 3 5 (-1) (-1) (by decide)⟩
+
+/-- FAITHFUL ROUNDING (monotonicity + exactness): the rounding of num/den never passes a double. For every finite
+    non-negative double y with exact value my·2^ey: num/den ≤ value(y) ⇒ result ≤ y, and num/den ≥ value(y) ⇒ result ≥ y.
+    Hence the result lies between the two doubles that enclose num/den. -/
+theorem roundRat_faithful (y : F64) (hs : sign y = false) (hfin : expBits y < 2047) (num den : Nat) (hden : 0 < den) :
+    (num * (if (decode y).2 ≥ 0 then 1 else 2 ^ (-(decode y).2).toNat) ≤
+       (if (decode y).2 ≥ 0 then (decode y).1 * 2 ^ (decode y).2.toNat else (decode y).1) * den →
+     (roundRat false num den).toNat ≤ y.toNat) ∧
+    ((if (decode y).2 ≥ 0 then (decode y).1 * 2 ^ (decode y).2.toNat else (decode y).1) * den ≤
+       num * (if (decode y).2 ≥ 0 then 1 else 2 ^ (-(decode y).2).toNat) →
+     y.toNat ≤ (roundRat false num den).toNat) :=
+  ⟨Proofs.FloatDecMono.roundRat_le_of_le y hs hfin num den hden, Proofs.FloatDecMono.roundRat_ge_of_ge y hs hfin num den hden⟩
+
+example : sign (0x3FB999999999999A : F64) = false ∧ expBits (0x3FB999999999999A : F64) < 2047 := by decide
+
+/-- NEGATIVE VALUES: the sign only sets the top bit (`roundRat true n d = roundRat false n d ||| 2^63`), so the order is
+    mirrored: num1/den1 ≤ num2/den2 ⇒ −num2/den2 rounds to a key ≤ that of −num1/den1; and every negative rounding is
+    ≤ every non-negative one (−0 and +0 share the key 0). Together with `roundRat_mono` this is monotonicity of the
+    rounding over all rationals, in the order `F64.key` that the skiplist uses. -/
+theorem roundRat_mono_neg (num1 den1 num2 den2 : Nat) (hd1 : 0 < den1) (hd2 : 0 < den2) (h : num1 * den2 ≤ num2 * den1) :
+    F64.key (roundRat true num2 den2) ≤ F64.key (roundRat true num1 den1) :=
+  Proofs.FloatDecMono.roundRat_neg_le num1 den1 num2 den2 hd1 hd2 h
+
+theorem roundRat_neg_le_pos (num1 den1 num2 den2 : Nat) (hd1 : 0 < den1) (hd2 : 0 < den2) :
+    F64.key (roundRat true num1 den1) ≤ F64.key (roundRat false num2 den2) :=
+  Proofs.FloatDecMono.roundRat_neg_le_pos num1 den1 num2 den2 hd1 hd2
+
+/-- CORRECTLY ROUNDED (nearest, ties to even): the result of `roundRat` on num/den > 0, read as a significand q at
+    exponent g — its bit pattern is min(+Inf, (g + 1074)·2^52 + q), with 2^52 ≤ q ≤ 2^53 unless g = −1074 (subnormal), so g is
+    the exponent of the last place in num/den's own binade — satisfies |num/den − q·2^g| ≤ 2^g / 2 (both inequalities, cross-
+    multiplied: 2^g is 2^g.toNat / 2^(−g).toNat), and on an exact tie q is even. Negative values: `roundRat true` only sets the
+    sign bit. Together with `roundRat_mono` and `roundRat_exact` this is IEEE-754 round-to-nearest-even. -/
+theorem roundRat_nearest (num den : Nat) (hnum : 0 < num) (hden : 0 < den) :
+    ∃ (q : Nat) (g : Int),
+      ((roundRat false num den).toNat : Int) = min (2047 * 2 ^ 52) ((g + 1074) * 2 ^ 52 + q) ∧
+      -1074 ≤ g ∧ q ≤ 2 ^ 53 ∧ (-1074 < g → 2 ^ 52 ≤ q) ∧
+      2 * q * 2 ^ g.toNat * den ≤ 2 * num * 2 ^ (-g).toNat + 2 ^ g.toNat * den ∧
+      2 * num * 2 ^ (-g).toNat ≤ 2 * q * 2 ^ g.toNat * den + 2 ^ g.toNat * den ∧
+      ((2 * q * 2 ^ g.toNat * den = 2 * num * 2 ^ (-g).toNat + 2 ^ g.toNat * den ∨
+        2 * num * 2 ^ (-g).toNat = 2 * q * 2 ^ g.toNat * den + 2 ^ g.toNat * den) → q % 2 = 0) :=
+  Proofs.FloatDecMono.roundRat_nearest num den hnum hden
+
+/-- the sign only sets the top bit -/
+theorem roundRat_sign (num den : Nat) : roundRat true num den = roundRat false num den ||| 0x8000000000000000 :=
+  Proofs.FloatDecMono.roundRat_neg num den
+
+/-- 1/10: q = 0x1999999999999A (rounded up from …99.6), g = −56: the double 0x3FB999999999999A -/
+example : roundRat false 1 10 = 0x3FB999999999999A ∧
+    ((0x3FB999999999999A : F64).toNat : Int) = min (2047 * 2 ^ 52) (((-56 : Int) + 1074) * 2 ^ 52 + (0x1999999999999A : Nat)) := by
+  decide +kernel
+
+/- NOT PROVED: monotonicity / nearest stated on TEXT (they are stated on the value mant × 10^ex that `parseDec` extracts from
+   the text); 17-digit sufficiency (above); that `formatShortest` is the *shortest* and *closest* round-tripping text; that the
+   result is the nearest among ALL doubles when it is a power of two reached from below is implied (the half unit is that of
+   num/den's binade, the finer one). Nothing about hexadecimal float text. -/
+
+end floattext
 
 end NodisVerif.C04
